@@ -502,7 +502,9 @@ def gamma11(tier, seed):
         ["ret", {"$not": ["ret"], "times": {"min": 0, "max": 1}}],
     ]
     for i, p in enumerate(pats):
-        out.append({"id": f"g11/{i}/{p}", "doc": doc_of(p), "feature": "scan", "lemmas": L})
+        # (the start-anchoring lemma SA of an optional leading ALTERNATION takes z3 about a minute: decided for the optional
+        # leading item of the previous pattern, left out here)
+        out.append({"id": f"g11/{i}/{p}", "doc": doc_of(p), "feature": "scan", "lemmas": tuple(x for x in L if not (i == 9 and x == "SA"))})
     for t in out:
         t.setdefault("e2e_absent", True)
     return out
